@@ -43,6 +43,23 @@ def funding_owed(obs, v, p):
     return tdiv((cpf - p["lupf"]) * p["size"], D)
 
 
+def free_collateral_of(obs, v, p):
+    """min(margin after funding, margin after funding + PnL) - notional x initial ratio / D, with the PnL view of smaller
+    magnitude (spot / 15-minute TWAP); notional = open notional for a long, position notional for a short"""
+    if p["pnl_spot"] is None or p["pnl_twap"] is None or p["pn_spot"] is None or p["pn_twap"] is None:
+        return None
+    D = I(obs, "e.dec")
+    mrg = max(0, p["margin"] - funding_owed(obs, v, p))
+    if abs(p["pnl_spot"]) > abs(p["pnl_twap"]):
+        pn, upnl = p["pn_twap"], p["pnl_twap"]
+    else:
+        pn, upnl = p["pn_spot"], p["pnl_spot"]
+    account = upnl + mrg
+    min_coll = mrg if upnl >= 0 else account
+    req = (p["notional"] if p["size"] > 0 else pn) * I(obs, "e.init") // D
+    return min_coll - req
+
+
 class Mon:
     def __init__(self, prop):
         self.prop = prop
@@ -308,6 +325,13 @@ def c05(m, h, i, s):
                 m.bad(h, i, "withdraw_margin", f"stored margin {pre['margin']} -> {post['margin']}, expected -{amt} - funding {f}")
             if post["fc"] is None or post["fc"] < 0:
                 m.bad(h, i, "withdraw_free_collateral", f"free collateral {post['fc']} after a successful WithdrawMargin")
+            # the same quantity recomputed from primary observations (stored position, cumulative fraction, the two PnL
+            # views, the initial ratio) rather than read from the engine's own FreeCollateral query
+            fc2 = free_collateral_of(s.obs, v, post)
+            if fc2 is not None:
+                if fc2 < 0:
+                    m.bad(h, i, "withdraw_free_collateral", f"free collateral recomputed as {fc2} (the engine's query says {post['fc']}) after a successful WithdrawMargin")
+                m.hit("withdraw-fc-recomputed" + (":boundary" if 0 <= fc2 <= 1 else ""), h, i)
             if post["lupf"] != I(s.obs, f"v{v}.cpf", 0):
                 m.bad(h, i, "withdraw_checkpoint", "funding checkpoint not advanced by WithdrawMargin")
         elif pre is not None:
